@@ -121,7 +121,8 @@ func VerifC10Case() {
 	subj := nd.IntIn(-2, 9)
 	w1, w2, w3 := nd.IntIn(-2, 9), nd.IntIn(-2, 9), nd.IntIn(-2, 9)
 	hasElse := nd.Choice(2) == 1
-	src := "{% case s %}{% when w1, w2 %}A{% when w3 %}B"
+	w4 := nd.IntIn(-2, 9)
+	src := "{% case s %}{% when w1, w2 %}A{% when w3 %}B{% when 50, 51, w4, 52 %}C"
 	if hasElse {
 		src += "{% else %}Z"
 	}
@@ -134,7 +135,7 @@ func VerifC10Case() {
 	case 2:
 		sv = "x" // a string never equals a number
 	}
-	out, err := vRender(src, Bindings{"s": sv, "w1": w1, "w2": w2, "w3": w3})
+	out, err := vRender(src, Bindings{"s": sv, "w1": w1, "w2": w2, "w3": w3, "w4": w4})
 	nd.Assert(err == nil, "case-no-error")
 	want := ""
 	switch {
@@ -146,6 +147,8 @@ func VerifC10Case() {
 		want = "A"
 	case subj == w3:
 		want = "B"
+	case subj == w4:
+		want = "C"
 	case hasElse:
 		want = "Z"
 	}
